@@ -182,3 +182,29 @@ def select_sweep(ndb):
         payload += gen.enc_cmd([b"SELECT", b"%d" % db]) + gen.enc_cmd([b"GET", b"probe"])
     lines.append("C 2 %s" % core.hx(payload))
     return lines
+
+
+def first_select_race(rng):
+    """several connections select the SAME database for the first time in this server's life at the same moment (one PAR step per database index), each
+    writes its own key there, and a late connection then reads every key from that database: a database is ONE keyspace whoever selected it first
+    (added after the seeded change C20-lazy-db-first-select-race: databases built on first SELECT, the loser of the creation race kept a private instance)"""
+    nconn = rng.randint(4, 8)
+    lines = ["S 16"]
+    order = list(range(1, 16))
+    rng.shuffle(order)
+    for db in order:
+        items = []
+        for c in range(1, nconn + 1):
+            payload = gen.enc_cmd([b"SELECT", b"%d" % db]) + gen.enc_cmd([b"SET", b"own%d" % c, b"db%d-conn%d" % (db, c)]) + gen.enc_cmd([b"GET", b"own%d" % c])
+            items.append("%d:%s" % (c, core.hx(payload)))
+        lines.append("PAR " + " ".join(items))
+    for db in order:
+        payload = gen.enc_cmd([b"SELECT", b"%d" % db])
+        for c in range(1, nconn + 1):
+            payload += gen.enc_cmd([b"GET", b"own%d" % c])
+        lines.append("C %d %s" % (nconn + 30, core.hx(payload)))
+    # and every connection, re-selecting, still sees its own write
+    for c in range(1, nconn + 1):
+        db = order[c % len(order)]
+        lines.append("C %d %s" % (c, core.hx(gen.enc_cmd([b"SELECT", b"%d" % db]) + gen.enc_cmd([b"GET", b"own%d" % c]))))
+    return lines
